@@ -727,6 +727,64 @@ def dead_arm_names(ast):
     return out
 
 
+_KIND = {'+': 'ADD', '-': 'SUB', '*': 'MUL', '/': 'DIV', '%': 'MOD', '|': 'OR', '&': 'AND', '^': 'XOR', '>>': 'RSHIFT', '<<': 'LSHIFT',
+         '<': 'LT', '>': 'GT', '<=': 'LE', '>=': 'GE', '==': 'EQ', '!=': 'NE', '&&': 'AND', '||': 'OR'}
+_UKIND = {'~': 'NOT', '-': 'NEG', '!': 'INV', '+': 'POS'}
+
+
+def dead_nested_kinds(ast):
+    """Counter of the operation kinds (the compiler's op_<KIND>_n names) that occur STRICTLY BELOW the root of a dead arm
+    (the root of a folded arm is removed by the compiler, what hangs below it is what the listed finding dead_arm_operand
+    leaves behind); for sizeof the operand's root counts too. Key 'other' counts casts, conditionals, calls and loads."""
+    import collections
+
+    out = collections.Counter()
+
+    def kind(x):
+        if x[0] == 'bin':
+            return _KIND.get(x[1], 'other')
+        if x[0] == 'un':
+            return _UKIND.get(x[1], 'other')
+        if x[0] in ('cast', 'cond', 'call', 'load', 'stmtexpr', 'assign', 'post', 'pre', 'comma'):
+            return 'other'
+        return None
+
+    for n in subterms(ast):
+        roots = ()
+        below_only = True
+        if isinstance(n, tuple) and n and n[0] == 'cond' and is_constant_expr(n[1]):
+            roots = n[2:4]
+        elif isinstance(n, tuple) and n and n[0] == 'call' and n[1] == 'sizeof':
+            roots = n[2:]
+            below_only = False
+        for r in roots:
+            first = True
+            for x in subterms(r):
+                if not isinstance(x, tuple) or not x:
+                    continue
+                if first:
+                    first = False
+                    if x is r and below_only:
+                        continue
+                k = kind(x)
+                if k:
+                    out[k] += 1
+    return out
+
+
+def valueless_statements(ast):
+    """expression statements whose value is dropped and whose root has no effect (`RsV + 1;`): -> (operand names, Counter of kinds)"""
+    import collections
+
+    names, kinds = set(), collections.Counter()
+    for n in subterms(ast):
+        if isinstance(n, tuple) and n and n[0] == 'expr' and isinstance(n[1], tuple) and n[1][0] in ('bin', 'un', 'cast', 'reg', 'id', 'imm', 'cond', 'num', 'alias', 'xreg'):
+            fake = ('call', 'sizeof', n[1])
+            names |= dead_arm_names(fake)
+            kinds += dead_nested_kinds(fake)
+    return names, kinds
+
+
 def attributes_of(text, noped=False):
     """C13 oracle: attribute set implied by the part's own text (independent parser)."""
     if noped:
